@@ -4,7 +4,7 @@
    against real files on every run, including real process crashes).  Traces are newest-first. *)
 From Coq Require Import List Bool Arith.
 Import ListNotations.
-Require Import PonyV.Model.C19Txn PonyV.Model.C17Db PonyV.Proofs.C19Base PonyV.Proofs.C17Proofs.
+Require Import PonyV.Model.C19Txn PonyV.Model.C17Db PonyV.Model.C17Pg PonyV.Proofs.C19Base PonyV.Proofs.C17Proofs PonyV.Proofs.C17PgProofs.
 
 (* For every sequence of sessions (any shapes: optimistic, immediate, serializable, ddl; any bodies: ORM writes via flush, raw
    db.execute writes, explicit commit / rollback, caught errors) and every fault oracle (a database error at any call):
@@ -44,6 +44,16 @@ Proof.
   exists r, s'. split; [exact E|]. intros after before Ht. eapply crash_in_points; eauto.
 Qed.
 Print Assumptions C17_all_or_nothing.
+
+(* PostgreSQL (modelled from postgres.py, fault-free; tied to the real PGProvider / PGPool driven with a recording stub
+   connection, never executed against a server): for every sequence of sessions of any shape, with any selects, writes,
+   commits and rollbacks, ending normally or with an exception, and whatever autocommit state the first connection starts in,
+   every write statement is executed with connection.autocommit = False - inside a driver transaction that only commit()
+   ends - and autocommit is never assigned while a transaction is open. *)
+Theorem C17_postgres_autocommit : forall sessions ac,
+  pg_writes_ok (g_trace (pg_run sessions (pg_init ac))) = true /\ g_bad (pg_run sessions (pg_init ac)) = false.
+Proof. exact pg_writes_lemma. Qed.
+Print Assumptions C17_postgres_autocommit.
 
 (* non-vacuity: an optimistic session with two ORM inserts and a raw insert; crash before the COMMIT (call 11 of 13):
    nothing is in the file; after it: all three writes (calls 6, 8, 10) *)
